@@ -247,6 +247,18 @@ def local_origins(body):
         if n.get('k') == 'match' and 'TryDesugar' not in (n.get('src') or '') and 'ForLoopDesugar' not in (n.get('src') or ''):
             for arm in n.get('arms', []):
                 pattern_bindings(arm['pat'], n['scrut'], out)
+        # a.zip(b).map(|(x, y)| ..) / opt.map(|x| ..) / opt.and_then(|x| ..): the closure parameter stands for the receiver's payload
+        if n.get('k') == 'mcall' and n.get('name') in ('map', 'and_then', 'map_or', 'is_some_and', 'filter') and n.get('args'):
+            from .core import peel
+            clo = peel(n['args'][-1])
+            if clo.get('k') == 'closure' and len(clo.get('params', [])) == 1:
+                recv = peel(n['recv'])
+                par = clo['params'][0]
+                if recv.get('k') == 'mcall' and recv.get('name') == 'zip' and par.get('k') == 'p_tuple' and len(par.get('pats', [])) == 2 and recv.get('args'):
+                    pattern_bindings(par['pats'][0], recv['recv'], out)
+                    pattern_bindings(par['pats'][1], recv['args'][0], out)
+                else:
+                    pattern_bindings(par, n['recv'], out)
     return out
 
 
